@@ -14,9 +14,12 @@ import (
 	"github.com/tink-crypto/tink-go/v2/aead"
 	"github.com/tink-crypto/tink-go/v2/aead/aesgcm"
 	aeadsubtle "github.com/tink-crypto/tink-go/v2/aead/subtle"
+	"github.com/tink-crypto/tink-go/v2/insecurecleartextkeyset"
 	internalaead "github.com/tink-crypto/tink-go/v2/internal/aead"
-	ctrhmacpb "github.com/tink-crypto/tink-go/v2/proto/aes_ctr_hmac_aead_go_proto"
+	"github.com/tink-crypto/tink-go/v2/internal/protoserialization"
+	"github.com/tink-crypto/tink-go/v2/keyset"
 	ctrpb "github.com/tink-crypto/tink-go/v2/proto/aes_ctr_go_proto"
+	ctrhmacpb "github.com/tink-crypto/tink-go/v2/proto/aes_ctr_hmac_aead_go_proto"
 	gcmpb "github.com/tink-crypto/tink-go/v2/proto/aes_gcm_go_proto"
 	gcmsivpb "github.com/tink-crypto/tink-go/v2/proto/aes_gcm_siv_go_proto"
 	chachapb "github.com/tink-crypto/tink-go/v2/proto/chacha20_poly1305_go_proto"
@@ -508,4 +511,46 @@ func TestGCMSIVHugeInputs(t *testing.T) {
 			})
 		}
 	}
+}
+
+// TestAEADLegacyPrefixType: AEAD key types have no LEGACY variant of their own, but a keyset may
+// carry OutputPrefixType LEGACY for them; the ciphertext then uses the 0x00 || id prefix and the
+// same standard algorithm (no message suffix for AEAD).
+func TestAEADLegacyPrefixType(t *testing.T) {
+	rapid.Check(t, func(rt *rapid.T) {
+		detrand.Seed(rapid.Uint64().Draw(rt, "entropy"))
+		typ := rapid.SampledFrom([]string{"AESGCM", "AESCTRHMAC", "AESGCMSIV", "CHACHA20POLY1305", "XCHACHA20POLY1305"}).Draw(rt, "aeadtype")
+		c := aeadcase.DrawType(rt, typ)
+		id := gen.KeyID(rt, "legacyid")
+		k, err := c.NewKey(tk.Crunchy, id)
+		if err != nil {
+			rt.Fatalf("%v: %v", c, err)
+		}
+		ks, err := protoserialization.SerializeKey(k)
+		if err != nil {
+			rt.Fatalf("%v: SerializeKey: %v", c, err)
+		}
+		if id == 0 {
+			id = 1 // key id 0 is legal, but keep the keyset's primary id explicit
+			k, _ = c.NewKey(tk.Crunchy, id)
+			ks, _ = protoserialization.SerializeKey(k)
+		}
+		kset := &tinkpb.Keyset{PrimaryKeyId: id, Key: []*tinkpb.Keyset_Key{{KeyData: ks.KeyData(), Status: tinkpb.KeyStatusType_ENABLED, KeyId: id, OutputPrefixType: tinkpb.OutputPrefixType_LEGACY}}}
+		h, err := insecurecleartextkeyset.Read(&keyset.MemReaderWriter{Keyset: kset})
+		if err != nil {
+			rt.Fatalf("%v: keyset with LEGACY prefix type refused: %v", c, err)
+		}
+		a, err := aead.New(h)
+		if err != nil {
+			rt.Fatalf("%v: aead.New on LEGACY-prefixed keyset: %v", c, err)
+		}
+		lc := *c
+		lc.Variant, lc.ID, lc.Route, lc.P = tk.Crunchy, id, "proto-LEGACY", a
+		pt := gen.Bytes(rt, "pt", 512)
+		ad := gen.BytesOrNil(rt, "ad", 100)
+		checkAEAD(rt, &lc, pt, ad)
+		evid.Case("legacy-prefix/"+typ+"/pt="+gen.LenClass(len(pt)), len(pt) >= 1, evid.NewH().S(lc.String()).B(pt).B(ad).Sum(), func() any {
+			return map[string]any{"case": lc.String(), "pt": gen.Hex(pt), "ad": gen.Hex(ad)}
+		})
+	})
 }
